@@ -63,6 +63,61 @@ def main():
             n_unsat += 1
         peers.uninstall()
     print(f"solver-stub selftest ok: {n_sat} sat / {n_unsat} unsat instances agree with brute force")
+    return selftest_ref()
+
+
+def selftest_ref():
+    """The reference evaluators must agree with each other (three independent code paths):
+    bit-parallel truth tables, pointwise evaluation, and the all-nodes consistency mask; the Kleene
+    evaluator must agree with the binary one on binary inputs and be monotone in X."""
+    from itertools import product
+    from cgsim import gen as G
+    rng = random.Random(4242)
+    n_nets = 0
+    for it in range(400):
+        net = G.gen_net(rng, n_inputs=(1, 4), n_gates=(1, 8), types=G.swarm_types(rng), max_arity=4, constants=0.3,
+                        bbs=rng.choice((0, 0, 1)))
+        if len(net["nodes"]) > 13:
+            continue
+        free = ref.free_nodes(net)
+        tts, _, full = ref.truth_tables(net, free)
+        order = ref.topo_order(net)
+        mask, names, _ = ref.consistency_mask(net)
+        idx = {n: i for i, n in enumerate(names)}
+        cnt = 0
+        for bits in product((0, 1), repeat=len(free)):
+            asg = dict(zip(free, bits))
+            vals = ref.evaluate(net, asg, order)
+            j = sum(b << i for i, b in enumerate(bits))
+            for n in names:
+                if ((tts[n] >> j) & 1) != vals[n]:
+                    print("REF MISMATCH truth_tables vs evaluate", net, asg, n)
+                    return 1
+            i = sum(vals[n] << idx[n] for n in names)
+            if not (mask >> i) & 1:
+                print("REF MISMATCH consistency_mask rejects an evaluated valuation", net, asg)
+                return 1
+            cnt += 1
+            if not net["bbs"]:
+                kv = ref.kleene(net, asg, order)
+                if any(kv[n] != vals[n] for n in names):
+                    print("REF MISMATCH kleene vs evaluate on binary inputs", net, asg)
+                    return 1
+        if ref.popcount(mask) != cnt:
+            print("REF MISMATCH consistency_mask has extra valuations for an acyclic net", net)
+            return 1
+        if not net["bbs"] and free:
+            # monotonicity: replacing an input by X can only turn outputs into X, never flip them
+            asg = {f: rng.getrandbits(1) for f in free}
+            base = ref.kleene(net, asg, order)
+            asg2 = dict(asg)
+            asg2[rng.choice(free)] = ref.X
+            kx = ref.kleene(net, asg2, order)
+            if any(kx[n] != ref.X and kx[n] != base[n] for n in names):
+                print("REF MISMATCH kleene not monotone", net, asg, asg2)
+                return 1
+        n_nets += 1
+    print(f"reference-model selftest ok: truth tables, pointwise evaluation, consistency mask and Kleene evaluation agree on {n_nets} nets")
     return 0
 
 
